@@ -533,8 +533,82 @@ def token_neighbourhood(fst, text, node, parent, mode, cidp, rep, res, tier):
                     res.nontriv(v, mode, 'accepted')
 
 
+# ---- undelimited sequences: the fragments pfst has to parse inside synthetic delimiters --------------------------------------
+USEQ_ELTS = ['a', '"é"', 'b[0]', '*s']
+USEQ_PELTS = ['a', '"é"', 'b.c', '*_']
+USEQ_SEPS = [', ', ',\n', ',\n  ', ',  # é\n', ' ,\n\n']
+USEQ_EXPR_MODES = ['expr', 'Tuple', 'expr_slice', 'expr_all']
+
+
+def useq_texts(elts, tier):
+    import itertools
+    for n in (2, 3):
+        for es in itertools.product(elts, repeat=n):
+            if sum(e.startswith('*') for e in es) > 1:
+                continue
+            for seps in itertools.product(USEQ_SEPS, repeat=n - 1):
+                if all(sp == ', ' for sp in seps):
+                    continue  # single-line: already covered by the program fragments
+                if tier == 'quick' and n == 3 and len(set(seps)) > 1 and ', ' not in seps:
+                    continue
+                yield ''.join(e + sp for e, sp in zip(es, seps)) + es[-1]
+
+
+def run_useq(fst, kind, part, tier, res):
+    """Multi-line (not backslash-continued) undelimited tuples / sequence patterns as fragments. Reference: the same text inside
+    CPython brackets ('x[...]' keeps the Tuple undelimited; 'case [...]' for patterns, own extent = first..last element)."""
+    texts = list(useq_texts(USEQ_ELTS if kind == 'expr' else USEQ_PELTS, tier))
+    for ti, text in enumerate(texts):
+        if ti % part[1] != part[0]:
+            continue
+        rep = {'useq': kind, 'text': text}
+        if kind == 'expr':
+            try:
+                ref = ast.parse('x[' + text + ']').body[0].value.slice
+            except SyntaxError:
+                continue
+            if not isinstance(ref, ast.Tuple):
+                continue
+            want = rebase(ref, 0, 2, 1)
+            modes = USEQ_EXPR_MODES
+        else:
+            pre = 'match s:\n case ['
+            try:
+                ref = ast.parse(pre + text + ']: pass').body[0].cases[0].pattern
+            except SyntaxError:
+                continue
+            want = rebase(ref, 1, len(' case ['), 2)
+            k0, k1 = want.patterns[0], want.patterns[-1]
+            want.lineno, want.col_offset, want.end_lineno, want.end_col_offset = k0.lineno, k0.col_offset, k1.end_lineno, k1.end_col_offset
+            modes = ['pattern', 'MatchSequence']
+        for mode in modes:
+            cid = f'C05/useq/{kind}/{text!r}/mode={mode}'
+            res.evals += 1
+            res.transitions += 1
+            res.state(text, mode)
+            f, e = pfst_parse(fst, text, mode)
+            res.traces += 1
+            if e is not None:
+                res.fail(cid, 'valid-fragment-rejected:' + e.__class__.__name__, f'fragment={text!r} mode={mode}\n{e!r}', {'mode': mode}, rep)
+                continue
+            if f.src != text:
+                res.fail(cid, 'source-changed-by-parse', f'fragment={text!r} mode={mode}\ngot={f.src!r}', {'mode': mode}, rep)
+                continue
+            if f.a.__class__ is not want.__class__:
+                res.fail(cid, 'fragment-parsed-to-other-node-kind', f'fragment={text!r} mode={mode}\ngot={f.a.__class__.__name__}',
+                         {'mode': mode}, rep)
+                continue
+            if dpos(f.a) != dpos(want):
+                res.fail(cid, 'fragment-tree-differs-from-embedded-subtree',
+                         f'fragment={text!r} mode={mode}\n' + O.first_diff(dpos(f.a), dpos(want)), {'mode': mode}, rep)
+                continue
+            res.nontriv(text, mode)
+            res.outcomes['useq-fragment-ok'] += 1
+
+
 def shards(tier):
     out = [{'prog': i} for i in range(len(PROGS))]
+    out += [{'useq': k, 'part': [r, 4]} for k in ('expr', 'pattern') for r in range(4)]
     if tier == 'thorough':
         import glob
         import os
@@ -555,6 +629,9 @@ def run_shard(desc, tier, res):
         if e is not None or f.src != src or O.dump_pos(f.a) != O.dump_pos(ast.parse(src)):
             res.fail(f'C05/file:{name}', 'file-parse-differs', repr(e), {}, None)
         return
+    if 'useq' in desc:
+        run_useq(fst, desc['useq'], desc['part'], tier, res)
+        return
     pi = desc['prog']
     run_program(fst, pi, PROGS[pi], tier, res, neighbourhood=True)
     res.sample({'program': PROGS[pi]})
@@ -562,4 +639,13 @@ def run_shard(desc, tier, res):
 
 def replay(rep, res):
     import fst
+    if 'useq' in rep:
+        global useq_texts
+        orig = useq_texts
+        useq_texts = lambda elts, tier: [rep['text']]  # noqa: E731
+        try:
+            run_useq(fst, rep['useq'], [0, 1], 'thorough', res)
+        finally:
+            useq_texts = orig
+        return
     run_program(fst, rep['prog'], PROGS[rep['prog']], 'quick', res, True)
